@@ -128,6 +128,25 @@ func c08Run(c *Ctx, cs c08Case) {
 		} else {
 			r.Count("unspecified_rejected", 1)
 		}
+		// Whether such a reply is accepted is not fixed by the property,
+		// but "success exactly when ..." makes the outcome a function of
+		// the reply: the same script must always get the same answer.
+		first := res.err == nil
+		for rep := 0; rep < 24; rep++ {
+			res2 := lpRun(c.Seed, cs.Script, lpConfig("sa", "secret-Pw1", encrypt), lpOptions{CutSeed: cs.CutSeed, CutClass: cs.CutClass, Timeout: timeout})
+			if res2.kit == nil {
+				break
+			}
+			res2.kit.teardown()
+			if res2.watchdog || res2.panicked != nil {
+				break
+			}
+			r.Eval(1)
+			if (res2.err == nil) != first {
+				r.Violate("outcome-not-a-function-of-the-reply"+sigTail, fmt.Sprintf("%s: the same reply script was accepted in one run and rejected in another (first run error: %v, run %d error: %v)", describe(), res.err, rep+2, res2.err), cs)
+				return
+			}
+		}
 		return
 	case "reject":
 		if res.err == nil {
@@ -260,6 +279,8 @@ func c08Edits(base lpScript, key *lpKey, nonce []byte) []struct {
 			case "capability":
 				alter("all-zero", lpCaps("all-zero"))
 				alter("request-type-zero", lpCaps("request-zero"))
+				alter("response-type-zero", lpCaps("response-zero"))
+				alter("response-type-omitted", lpCaps("response-omitted"))
 			case "params":
 				alter("cipher=0", lpParams(types, 0, "valid", key.pem, nonce))
 				alter("cipher=2", lpParams(types, 2, "valid", key.pem, nonce))
